@@ -42,16 +42,71 @@ def world : Op
     let prog ← (← progV.list?).mapM parseStep
     let cells ← cellsV.nats?
     let nan : Float := 0.0 / 0.0
-    let step : (Store Float × List Val) → WStep → (Store Float × List Val) := fun (σ, out) s =>
+    -- the store is kept as a table over the cells the program mentions and re-read into one after every step
+    -- (a chain of closures `setCell (setCell …)` is re-evaluated at every lookup: exponential in the length)
+    let mentioned := cells ++ prog.foldr (fun s acc => match s with
+      | .new k => k :: acc
+      | .derive a b => a :: b :: acc
+      | .fix k _ => k :: acc
+      | .eval k _ => k :: acc) []
+    let ofTable : List (Nat × St Float) → Store Float := fun tbl b =>
+      match tbl.find? (·.1 == b) with
+      | some e => e.2
+      | none => none
+    let toTable : Store Float → List (Nat × St Float) := fun σ => mentioned.eraseDups.map (fun k => (k, σ k))
+    let step : (List (Nat × St Float) × List Val) → WStep → (List (Nat × St Float) × List Val) := fun (tbl, out) s =>
+      let σ := ofTable tbl
       match s with
-      | .new k => (setCell σ k none, out)
-      | .derive a b => (deepCopy σ a b, out)
-      | .fix k d => (act names nan σ (.fix k d), out)
-      | .eval k free => (act names nan σ (.eval k free), out ++ [ofFlts (evalFresh (σ k) (fun x => x) free)])
-    let r := prog.foldl step ((fun _ => none), [])
+      | .new k => (toTable (setCell σ k none), out)
+      | .derive a b => (toTable (deepCopy σ a b), out)
+      | .fix k d => (toTable (act names nan σ (.fix k d)), out)
+      | .eval k free => (toTable (act names nan σ (.eval k free)), out ++ [ofFlts (evalFresh (σ k) (fun x => x) free)])
+    let r0 := prog.foldl step ([], [])
+    let r : Store Float × List Val := (ofTable r0.1, r0.2)
     let masks := cells.map (fun k => Val.list ((view names nan (r.1 k)).map (fun x => Val.bool x.1)))
     some [.list r.2, .list masks]
   | _ => none
 
-def ops : List (String × Op) := [("C19.seq", seq), ("C19.world", world)]
+/-- one step of a re-configuration program on a reduced mechanistic model / the likelihood above it -/
+inductive RStep where
+  | fix (d : Req Float)
+  | sens (b : Bool)
+  | sim (free : List Float)
+  | eval (op : LLOp) (free : List Float)
+
+def parseLLOp : Val → Option LLOp
+  | .str "call" => some .call
+  | .str "pw" => some .pointwise
+  | .str "s1" => some .s1
+  | _ => none
+
+def parseRStep (v : Val) : Option RStep := do
+  match v with
+  | .list [.str "fix", r] => some (.fix (← ChiDriver.C08.parseReq r))
+  | .list [.str "sens", b] => some (.sens (← b.bool?))
+  | .list [.str "sim", f] => some (.sim (← f.flts?))
+  | .list [.str "eval", o, f] => some (.eval (← parseLLOp o) (← f.flts?))
+  | _ => none
+
+/-- `C19.reconf names program` → for every `sim` / `eval` step what the wrapped mechanistic model is asked:
+    the full parameter vector and the names its sensitivity columns belong to (`none` = no sensitivities);
+    and the free names at the end -/
+def reconf : Op
+  | [namesV, progV] => do
+    let names ← namesV.strs?
+    let prog ← (← progV.list?).mapM parseRStep
+    let nan : Float := 0.0 / 0.0
+    let render : List Float × Option (List String) → Val := fun r =>
+      .list [ofFlts r.1, match r.2 with | some cs => ofStrs cs | none => Val.none]
+    let step : (MSt Float × List Val) → RStep → (MSt Float × List Val) := fun (m, out) s =>
+      match s with
+      | .fix d => (fixM names nan m d, out)
+      | .sens b => (enableM names nan m b, out)
+      | .sim free => let r := simM names nan m free; (r.1, out ++ [render r.2])
+      | .eval op free => let r := llEvalM names nan m op free; (r.1, out ++ [render r.2])
+    let r := prog.foldl step (MSt.init, [])
+    some [.list r.2, ofStrs (freeOf names nan r.1.cfg)]
+  | _ => none
+
+def ops : List (String × Op) := [("C19.seq", seq), ("C19.world", world), ("C19.reconf", reconf)]
 end ChiDriver.C19
